@@ -742,6 +742,42 @@ func Origins(v ssa.Value, o OriginOpts) []ssa.Value {
 			default:
 				leaf(v)
 			}
+		case *ssa.Index:
+			// element of a local array value `*alloc`: any value stored through &alloc[i]; the zero value only if
+			// some element may be unset (not tracked: constant-index stores covering the array are the norm)
+			if u, ok := x.X.(*ssa.UnOp); ok && u.Op == token.MUL {
+				if a, ok := u.X.(*ssa.Alloc); ok {
+					if arr, isArr := a.Type().Underlying().(*types.Pointer).Elem().Underlying().(*types.Array); isArr {
+						n := 0
+						okAll := true
+						idxSeen := map[int64]bool{}
+						for _, r := range *a.Referrers() {
+							switch ia := r.(type) {
+							case *ssa.IndexAddr:
+								k, isC := ConstInt(ia.Index)
+								for _, rr := range *ia.Referrers() {
+									if st, ok := rr.(*ssa.Store); ok && st.Addr == ssa.Value(ia) {
+										walk(st.Val, depth, ext)
+										n++
+										if isC {
+											idxSeen[k] = true
+										}
+									} else if _, isLoad := rr.(*ssa.UnOp); !isLoad {
+										okAll = false
+									}
+								}
+							case *ssa.UnOp:
+							default:
+								okAll = false
+							}
+						}
+						if okAll && int64(len(idxSeen)) == arr.Len() {
+							return
+						}
+					}
+				}
+			}
+			leaf(v)
 		case *ssa.Parameter:
 			if o.ThroughPar && o.Prog != nil && depth < o.Depth {
 				fn := x.Parent()
